@@ -40,7 +40,7 @@ def main(argv):
         if verdict != want:
             bad.append(n)
         print(f"{n} {props[0]}: {verdict}{flag}", flush=True)
-    json.dump({"results": out, "differs": bad}, open(os.path.join(SEEDED, "REGRESSION.json"), "w"), indent=1, sort_keys=True)
+    json.dump({"results": out, "differs": bad}, open(os.environ.get("REGRESSION_OUT", os.path.join(SEEDED, "REGRESSION.json")), "w"), indent=1, sort_keys=True)
     print(f"{len(out)} changes, {len(bad)} differ from the record: {bad}")
     return 1 if bad else 0
 
